@@ -217,10 +217,13 @@ class Facts:
         into a helper.  The default is the body as written (many rules name today's helpers); VERIF_FLAT=1 flips the default."""
         fn = self.fns[name]
         if flat is None:
-            flat = os.environ.get("VERIF_FLAT", "0") == "1"
+            flat = "second-view" if os.environ.get("VERIF_FLAT", "0") == "1" else False
         if not flat:
             return fn
         from . import flatten
+        if flat == "second-view" or (flat is True and os.environ.get("VERIF_FLAT") == "1" and flatten.KEEP_ID):
+            # the generic second view: everything helper-like except what the rule's module names
+            return flatten.flat(self, name, keep=("<rule-module-names>",))
         return flatten.flat(self, name)
 
     def find(self, suffix):
